@@ -40,7 +40,7 @@ def run(ctx):
     ctx.coverage.update(miri.coverage(res))
     ctx.coverage["rule"] = ("Miri (data-race + use-after-free detector, weak-memory emulation) on litmus program x scheduler seed; "
                             "non-trivial = >=2 threads touched one allocation and it was destroyed; distinct = distinct (program, seed)")
-    bad = [r for r in res if r["status"] == "ub"]
+    bad = miri.failing(res)
     ctx.oblige("miri:litmus-race-free", not bad, "%d failing runs" % len(bad))
 
     if ctx.failed_obligations():
@@ -51,7 +51,7 @@ def run(ctx):
         if not bad and not ctx.thorough():
             # widen the search before giving up
             more = miri.run_suite(ctx, miri.programs_for("C02"), miri.seeds(ctx, 16))
-            bad = [r for r in more if r["status"] == "ub"]
+            bad = miri.failing(more)
             ctx.coverage["search_runs"] = len(more)
         if bad:
             r = bad[0]
